@@ -374,7 +374,7 @@ def register_to_unstable(reg):
             requires=tu_requires(shape),
             loops={
                 1: Loop(index="it1", fingerprint="for nd in gaf_contigs",
-                        pres_from={"emitted": ["emitted-this-token", "emitted-earlier-kept", "token"]}, invariant={
+                        pres_from={"emitted": ["emitted-this-token", "emitted-earlier-kept", "token", "loop1:emitted", "!noqf"]}, invariant={
                     "orient": ("implies(it1 >= 1, (not is_none(orient)) and val(orient) == ori(0)) and implies(it1 == 0, is_none(orient))" if bare else
                                "implies(it1 >= 1 and it1 % 2 == 1, (not is_none(orient)) and val(orient) == tok(it1 - 1)) and implies(it1 == 0, is_none(orient))"),
                     "emitted-count": "len(unstable_coord) == 2 * OUT[it1]",
@@ -442,8 +442,9 @@ def register_to_unstable(reg):
                         "from": ["loop3:emitted-count", "loop3:emitted-now-orientation", "loop3:emitted-now-id", "loop4:emitted-count", "loop4:emitted-now-orientation",
                                  "loop4:emitted-now-id", "loop2:taken-ids", "all-overlapping-segments-taken", "orient-is-the-token-orientation"]},
                     "emitted-this-token": {
-                        "expr": "forall(lambda k: implies(0 <= k < nout(it1 - 1), unstable_coord[2 * (OUT[it1 - 1] + k)] == ori(it1 - 1) and "
-                                "unstable_coord[2 * (OUT[it1 - 1] + k) + 1] == R(it1 - 1)[ite(ori(it1 - 1) == '<', hi[it1 - 1] - k, lo[it1 - 1] + k)].id))",
+                        # two-variable form (t pinned to this token): the same trigger shape as the loop invariant `emitted`
+                        "expr": "forall(lambda t, k: implies(t == it1 - 1 and 0 <= k < nout(t), unstable_coord[2 * (OUT[t] + k)] == ori(t) and "
+                                "unstable_coord[2 * (OUT[t] + k) + 1] == R(t)[ite(ori(t) == '<', hi[t] - k, lo[t] + k)].id))",
                         "from": ["emitted-this-token-by-position", "loop1:emitted-count"]},
                     "emitted-earlier-kept": EMITTED.format(n="it1 - 1")}},
             ensures=ens,
